@@ -243,7 +243,9 @@ class C06:
             facts = ctx.facts_at(ff, a)
             m = pat.match("self._changeset_storage.add($E)", a)
             ent = ast.unparse(m["E"])
-            good = good and has_fact(facts, "%s[$S].changed" % ent, True)
+            from sa.util import extra_facts
+            good = good and has_fact(facts, "%s[$S].changed" % ent, True) and not extra_facts(facts, [("%s[$S].changed" % ent, True), ("self._storage", True), ("$X is None", False),
+                                                                                                      ("self._loading", True), ("self._tag", True)])
         rep.check("C06.R5", "load|pending", f, good, "pending set rebuilt from the persisted `changed` flag",
                   "the pending set is not rebuilt from the entries' `changed` flag (facts at the add: %s): a change that was recorded but not yet "
                   "examined by the sync step is forgotten by a restart" % [sorted(ctx.facts_at(ff, a)) for ff, a in adds])
@@ -369,3 +371,13 @@ def run(ctx: Ctx, rep: Report, tier: str):
         rep.check("C06.R12", "do|cursor-error|reposition", ctx.line(dof, h), bool(save) and p_ is None, "current_cursor := latest_cursor, then save",
                   "after a rejected cursor the provider is not re-positioned before the cursor is saved: the same rejected cursor is persisted again and every restart fails the same way",
                   witness=describe_path(p_) if p_ else None)
+    from rules.common import codec_keeps_tuples
+    rep.rule("C06.R13", "what is reloaded equals what was stored, types included (C08.R8): a restart does not turn every tuple hash into a difference", 1)
+    codec_keeps_tuples(ctx, rep, "C06.R13")
+    from rules.common import walk_propagates_faults
+    rep.rule("C06.R14", "a walk that could not list a folder is not a complete walk (C10.T12): the walk marker is only written after a walk that saw every folder or failed", 1)
+    walk_propagates_faults(ctx, rep, "C06.R14")
+    from rules.common import alias as _alias6
+    from rules.C10 import C10 as _C10
+    _alias6(rep, ["C10.T7"], "C06.R15", "a download recorded before the stop is reused after the restart only for the content it came from: the persisted temp-file name is a "
+            "function of the side's current hash and path (C10.T7)", 2, lambda: _C10(ctx, rep).t7())
